@@ -48,26 +48,29 @@ static void check_one(int v, int param, int junk, const ctx *x, const char *desc
   if (pd >= 0) vx_fail(sig, "padding", "%s: non-zero bits beyond the last column in row %d", desc, pd);
   if (ok) {
     pm *S = pm_from_mzd(M);
-    if (is_ple) { /* E -> U by the 'triangular' transposed right application: swap i only on the rows above row i, ascending i */
-      for (int i = 0; i < r; i++) pm_swap_cols_rows(S, i, Q->values[i], 0, i);
-    }
     pm *L = pm_new(m, r > 0 ? r : 1), *U = pm_new(r > 0 ? r : 1, n);
     L->c = r; U->r = r; /* r may be 0: keep allocations valid */
     int outside = 0, oi = -1, oj = -1, diag = 0;
+    /* Stored form (both variants): L = strictly lower part of the first r columns, U-region = rows < r from the diagonal on with a
+       unit diagonal.  PLUQ: A = P*L*U*Q.  PLE: the stored rows are E with, for ascending i, columns i and Q[i] swapped in the
+       rows >= i (this is what moves column Q[i] of L to column i); undo that on the U-region to obtain E, then A = P*L*E. */
     for (int i = 0; i < m; i++) for (int j = 0; j < n; j++) {
       int b = pm_get(S, i, j);
-      if (i < r && j == i) { if (!b) diag = 1; }
-      else if (j < i && j < r) { if (b) pm_set(L, i, j, 1); }
-      else if (i < r && j > i) { if (b) pm_set(U, i, j, 1); }
+      if (j < i && j < r) { if (b) pm_set(L, i, j, 1); }
+      else if (i < r && j >= i) { if (j == i) { if (!b) diag = 1; else pm_set(U, i, j, 1); } else if (b) pm_set(U, i, j, 1); }
       else if (b) { if (!outside) { oi = i; oj = j; } outside = 1; }
     }
-    if (outside) { vx_fail(sig, "zero-outside", "%s: entry (%d,%d) outside the L and U regions is non-zero (rank %d)", desc, oi, oj, r); ok = 0; }
-    if (diag) { vx_fail(sig, "unit-diagonal", "%s: a diagonal entry of the first %d rows is zero", desc, r); ok = 0; }
+    if (is_ple && r > 0) {
+      for (int i = r - 1; i >= 0; i--) pm_swap_cols_rows(U, i, Q->values[i], i, r);
+      for (int i = 0; i < r && !outside; i++) for (int j = 0; j < Q->values[i]; j++) if (pm_get(U, i, j)) { vx_fail(sig, "echelon-shape", "%s: row %d of E is non-zero before its pivot column %d", desc, i, Q->values[i]); ok = 0; break; }
+    }
+    if (outside) { vx_fail(sig, "zero-outside", "%s: entry (%d,%d) outside the L and %s regions is non-zero (rank %d)", desc, oi, oj, is_ple ? "E" : "U", r); ok = 0; }
+    if (diag) { vx_fail(sig, "unit-diagonal", "%s: a pivot entry of the first %d rows is zero", desc, r); ok = 0; }
     if (ok && r > 0) {
-      for (int i = 0; i < r; i++) { pm_set(L, i, i, 1); pm_set(U, i, i, 1); }
+      for (int i = 0; i < r; i++) pm_set(L, i, i, 1);
       pm *X = pm_mul(L, U);
       for (int i = m - 1; i >= 0; i--) pm_swap_rows(X, i, P->values[i]);
-      for (int i = n - 1; i >= 0; i--) pm_swap_cols(X, i, Q->values[i]);
+      if (!is_ple) for (int i = n - 1; i >= 0; i--) pm_swap_cols(X, i, Q->values[i]);
       if (!pm_eq(X, x->A)) vx_fail(sig, "reconstruction", "%s: P*L*%s%s differs from the original matrix (rank %d)", desc, is_ple ? "E" : "U", is_ple ? "" : "*Q", r);
       pm_free(X);
     } else if (ok && r == 0) {
